@@ -98,7 +98,7 @@ func C11(r *vf.Run) {
 			continue
 		}
 		desc := pass == 2
-		vf.Parallel(workers, workers, func(w, wi int) {
+		r.Parallel(workers, workers, func(w, wi int) {
 			g := r.Rand(fmt.Sprintf("fill%d", pass)).Fork(uint64(wi))
 			h, err := newSysShadow(g)
 			if err != nil {
